@@ -141,8 +141,8 @@ func TestVerifBounded_C15_FederationCancel(t *testing.T) {
 					if when == "before" && r.err == nil && r.resp == nil {
 						fail(what, "returned neither a response nor an error")
 					}
-				case <-time.After(1500 * time.Millisecond):
-					fail(what, "the sub-request has not returned after 1.5s although its context is cancelled")
+				case <-time.After(5 * time.Second):
+					fail(what, "the sub-request has not returned after 5s although its context is cancelled")
 				}
 				cancel()
 				for len(entered) > 0 {
@@ -197,8 +197,8 @@ func TestVerifBounded_C15_FederationCancel(t *testing.T) {
 				} else if r.err == nil {
 					fail(what, "no error although a sub-query failed or the request was cancelled")
 				}
-			case <-time.After(1500 * time.Millisecond):
-				fail(what, "the gateway has not returned after 1.5s: a sub-request blocks although its context is cancelled")
+			case <-time.After(5 * time.Second):
+				fail(what, "the gateway has not returned after 5s: a sub-request blocks although its context is cancelled")
 			}
 			cancel()
 		}
